@@ -1,6 +1,6 @@
 let () =
   match Array.to_list Sys.argv with
-  | _ :: "c13" :: path :: rest -> C13.run path (rest <> ["release"])
+  | _ :: "c13" :: path :: rest -> C13.run path (not (List.mem "release" rest)) (List.mem "count" rest)
   | _ :: "c03" :: path :: _ -> C03.run path
   | _ :: "c14" :: path :: _ -> C14.run path
   | _ :: "c04" :: path :: _ -> C04.run path
